@@ -402,6 +402,11 @@ def _randfilter(R, rng, ctx, i):
             cond = np.linalg.cond(S)
             if cond > 1e4:
                 continue
+            if float(np.max(np.abs(P @ H.T), initial=0.0)) < 1e-6:
+                # the sensor does not observe the state (H P = 0): using the reading changes nothing,
+                # so "estimate unchanged" cannot tell a discard from an update
+                R.stats.inc("unobservable_sensor_cases_skipped")
+                continue
             L = np.linalg.cholesky(S)
             g = np.random.default_rng(rng.getrandbits(63)).normal(size=(m, 1))
             g /= max(np.linalg.norm(g), 1e-12)
